@@ -7,6 +7,18 @@ TRUSTED_BASE = [
 ]
 
 PROPS = {
+    "C14": dict(
+        assumptions=["the underlying enforcer is abstract: every Enforce event carries the answer the embedded enforcer gives at that moment (read by the harness through the embedded enforcer immediately before the cached call)",
+                     "the wall clock is an oracle: `tick n` advances the model's clock, the harness sleeps for real (300 ms lifetime, 400 ms ticks; a case is abandoned if the machine stalls)",
+                     "removal of the identical rule = through the cached type's own RemovePolicy/RemovePolicies in either calling convention; changes through promoted methods of the embedded enforcer are documented by casbin as not invalidating"],
+        trusted=["modelled: enforcer_cached.go, enforcer_cached_synced.go (Enforce, LoadPolicy, ClearPolicy, InvalidateCache, RemovePolicy, RemovePolicies, AddPolicy/AddPolicies of the synced variant, EnableCache, SetExpireTime, GetCacheKey), persist/cache/default-cache.go and cache_sync.go (Set/Get/Delete/Clear with ttl)",
+                 "not modelled: the locking of SyncCache and of the wrappers (C12), a user-supplied cache via SetCache"],
+    ),
+    "C08": dict(
+        assumptions=["Go byte strings as List Char (every character the reader looks for is ASCII)", "bufio.ReadLine after the long-line repair: a line is the text between two newlines"],
+        trusted=["modelled: config/config.go (parseBuffer, write, AddConfig, get), model/model.go (loadModelFromConfig, loadSection, AddDef, getParamsToken), util.EscapeAssertion, util.RemoveComments (their regular expressions as hand-written scanners, validated by the correspondence run)",
+                 "not modelled: reading from a file path, ToText, PrintModel"],
+    ),
     "C09": dict(
         assumptions=["Go strings are compared as byte strings, the model works on List Char: identical on valid UTF-8 because every character the code searches for is ASCII",
                      "paths without newline for the trailing wildcard (Go's `.` does not match newline; the spec says so explicitly)",
@@ -36,6 +48,8 @@ PROPS = {
 }
 
 LEVEL_TEXT = {
+    "C14": "Proved in Lean for every history of calls, every request tuple (arbitrary byte strings incl. the separator, cacheable and uncacheable parameters) and every clock: whatever a cached enforcer answers was the underlying enforcer's answer to that same tuple, now or at an earlier Enforce separated from now by no InvalidateCache/LoadPolicy/ClearPolicy/removal (synced: or addition) of the identical rule and by at most the configured lifetime (served_was_given); the cache key is injective on request tuples (cacheKey_injective); errors pass through, uncacheable requests and a disabled cache bypass. Tie: seeded random histories (and real-time lifetime cases) on the real CachedEnforcer and SyncedCachedEnforcer; every served answer is compared with the model and must be admissible.",
+    "C08": "Proved in Lean for every text: blank/comment lines outside a continuation, whitespace around lines, CRLF endings, backslash continuation at a blank and the order of sections with distinct names do not change the configuration read by the mirror of parseBuffer (hence not the definitions, a function of it); a one-line definition is stored in full whatever its length; parsing is total. Tie: every examples/*.conf and generated texts x all layout transformations at every position (incl. padding and splitting past 4 KiB) and 2 000 / 60 000 malformed texts through the real NewModelFromString, assertion by assertion.",
     "C09": "Partial. Proved in Lean for every well-formed pattern of the segment grammar (any number of segments, any literal text free of regex metacharacters) and every path: the mirror of keyMatch2/3/5 (pattern rewriting + matcher for the regex fragment it produces) accepts exactly the paths of the segment semantics, keyMatch4 additionally requires equal values for repeated names, keyGet2/3 return the captured segment exactly when the match succeeds, keyMatch/keyGet are the prefix-before-first-star semantics, ipMatch on dotted quads is CIDR block arithmetic. Go's regexp/net are modelled (not verified): the mirror is tied to them by replaying all patterns up to 2 (quick) / 4 (thorough) segments x all paths up to 4/5 segments, raw patterns at the boundary of the fragment, and random IPv4 inputs through the real functions.",
     "C01": "Proved in Lean for every model definition, policy, grouping set, request, built-in function table and eval table: whenever the PERM reference semantics (specEnforce: matcher against every rule in stored order, g() = reachability within depth 10 through the listed grouping rules by direct recursion, effects combined by the four sentences of C02) specifies a decision, the mirror of enforce() returns it (enforce_eq_perm); the role manager's BFS is exactly reachability within the depth bound (hasLink_iff_reach), links built from rules are the rules' links (applyRules_links), EnforceWithMatcher(own matcher) = Enforce (withMatcher_own), error-free answers only depend on the rules up to the deciding one (loopFromE_some_prefix), the g() memo key is injective on NUL-free arguments. Tie: 14 model families x all policies/groupings up to 2 (quick) / 3 (thorough) rules x all requests through the real EnforceEx/Enforce/BatchEnforce/EnforceWithMatcher, plus seeded random matchers, graphs with cycles and chains around the depth limit.",
     "C06": "Proved in Lean by refinement: from a coherent store, every management call whose arguments satisfy WF06 yields the list and boolean of the list-of-unique-rules specification and keeps list and index coherent (refine_step), hence every history does (refine_hist); corollaries: present iff listed, never listed twice, removal/update keep order, filtered queries/removals exact, false iff unchanged, key injectivity on comma-free rules. Tie: all histories of depth <=3 (quick) / <=4 (thorough) over a 16-op alphabet for p, p2 and g through the real Enforcer API with the exported PolicyMap observed after every call, plus seeded random histories over a hostile universe (outside WF06 only model = implementation is checked).",
